@@ -28,6 +28,9 @@ class Panic(Exception):
 class Dead(Exception):
     """Path condition became unsatisfiable (e.g. after an assume)."""
 
+class Split(Exception):
+    """exploration stopped at the split depth; the pending prefixes are in Machine.splits"""
+
 # ------------------------------------------------------------------ values
 class Cell:
     __slots__ = ('v',)
@@ -351,6 +354,7 @@ class Machine:
         self.encoded = set()       # item keys actually executed
         self.models_used = set()   # contract models actually used
         self._dyn = {}; self._clo = {}
+        self.split_depth = None; self.splits = []
         from . import models
         self.intrinsics = models.INTRINSICS
 
@@ -383,12 +387,45 @@ class Machine:
             if r == z3.unknown: raise Unsupported('solver unknown in feasibility check')
             if r == z3.sat: feas.append(i)
         if not feas: raise Dead()
+        if self.split_depth is not None and len(self.trace) >= self.split_depth and len(feas) > 1:
+            for j in feas: self.splits.append(self.trace + [j])
+            raise Split()
         for j in feas[1:]:
             self.work.append(self.trace + [j]); self.stats['forks'] += 1
         i = feas[0]
         self.trace.append(i); self.tpos += 1
         self.pc.append(cs[i]); self.solver.add(cs[i])
         return i
+
+    def enum_int(self, term, lo, hi):
+        """fork over the feasible values of bit-vector `term` within [lo, hi] (model-based enumeration: one query per
+        feasible value plus one, instead of one per candidate)"""
+        t = simp(term)
+        if not is_sym(t): return t
+        if self.tpos < len(self.trace):
+            v = self.trace[self.tpos]; self.tpos += 1
+            c = t == v; self.pc.append(c); self.solver.add(c); return v
+        vals = []
+        self.solver.push()
+        self.solver.add(z3.UGE(t, lo), z3.ULE(t, hi))
+        while True:
+            self.stats['smt'] += 1
+            r = self.solver.check()
+            if r == z3.unknown: self.solver.pop(); raise Unsupported('solver unknown in value enumeration')
+            if r != z3.sat: break
+            v = self.solver.model().eval(t, True).as_long(); vals.append(v); self.solver.add(t != v)
+        self.solver.pop()
+        if not vals: raise Dead()
+        vals.sort()
+        if self.split_depth is not None and len(self.trace) >= self.split_depth:
+            for v in vals: self.splits.append(self.trace + [v])
+            raise Split()
+        for v in vals[1:]:
+            self.work.append(self.trace + [v]); self.stats['forks'] += 1
+        v = vals[0]
+        self.trace.append(v); self.tpos += 1
+        c = t == v; self.pc.append(c); self.solver.add(c)
+        return v
 
     def branch(self, c):
         """bool decision"""
@@ -402,6 +439,14 @@ class Machine:
         i = self.choose([v == c for c in candidates] + [z3.And([v != c for c in candidates])])
         if i == len(candidates): raise Unsupported('value outside candidate set')
         return candidates[i]
+
+    def split(self, entry, depth):
+        """explore only down to `depth` decisions; returns (finished path results, pending prefixes)"""
+        self.split_depth = depth; self.splits = []
+        done = self.explore(entry)
+        self.split_depth = None
+        sp = self.splits; self.splits = []
+        return done, sp
 
     def explore(self, entry, on_path=None, prefixes=None, max_paths=100000):
         """Run entry(M) along every feasible path.  entry builds the inputs and calls into the code.
@@ -419,7 +464,7 @@ class Machine:
                 pr.result = entry(self)
             except Panic as e:
                 pr.panic = e
-            except Dead:
+            except (Dead, Split):
                 continue
             except Unsupported as e:
                 pr.inconclusive = str(e)
